@@ -110,8 +110,14 @@ var consumers = []consumer{
 		func(d []byte) error { var v [1]int; return stdjson.Unmarshal(embed(`[0,`, d, `]`), &v) },
 		func(d []byte) error { var v [1]int; return segjson.Unmarshal(embed(`[0,`, d, `]`), &v) }},
 	{`Unmarshal({"k":s}, &map[string]RawMessage)`,
-		func(d []byte) error { var v map[string]stdjson.RawMessage; return stdjson.Unmarshal(embed(`{"k":`, d, `}`), &v) },
-		func(d []byte) error { var v map[string]segjson.RawMessage; return segjson.Unmarshal(embed(`{"k":`, d, `}`), &v) }},
+		func(d []byte) error {
+			var v map[string]stdjson.RawMessage
+			return stdjson.Unmarshal(embed(`{"k":`, d, `}`), &v)
+		},
+		func(d []byte) error {
+			var v map[string]segjson.RawMessage
+			return segjson.Unmarshal(embed(`{"k":`, d, `}`), &v)
+		}},
 	{`Unmarshal(s, &any)`,
 		func(d []byte) error { var v any; return stdjson.Unmarshal(d, &v) },
 		func(d []byte) error { var v any; return segjson.Unmarshal(d, &v) }},
@@ -380,6 +386,37 @@ func TestNesting(t *testing.T) {
 			evid.Label(fmt.Sprintf("nesting.depth%d", d))
 		}
 	}
+	r.done()
+}
+
+// TestByteSubstitution: every byte value 0..255 substituted at (and inserted before) every position of a
+// set of small documents that together contain every token form (each escape, \u sequences and surrogate
+// pairs, every number part, the literals, nested containers). The byte-class alphabet of the exhaustive
+// enumeration keeps one representative per class; here no two byte values are assumed equivalent.
+func TestByteSubstitution(t *testing.T) {
+	r := &runner{t: t, name: "ByteSubstitution"}
+	shard, n := evid.Shard(), evid.NShards()
+	templates := []string{`"\u0041\u00e9"`, `"\ud83d\ude00"`, `"a\"b\\c\/d\be\ff\ng\rh\ti"`, `"abc"`, `"é 😀"`, `-12.50e+10`, `0.1E-2`, `1234567890`, `-0`, `true`, `false`, `null`,
+		`{"k":[1,"v",{"n":null}],"z":true}`, `[[],{},"",0]`, ` [ 1 , 2 ] `, `{"\u006b":"\u0076"}`, `"\uD834\uDD1E"`, `"\u12aF"`}
+	idx := 0
+	for _, tpl := range templates {
+		for pos := 0; pos <= len(tpl); pos++ {
+			idx++
+			if idx%n != shard {
+				continue
+			}
+			for b := 0; b < 256; b++ {
+				if pos < len(tpl) {
+					doc := []byte(tpl)
+					doc[pos] = byte(b)
+					r.do(Case{Doc: doc, What: "all"}, false)
+				}
+				doc := append(append(append([]byte{}, tpl[:pos]...), byte(b)), tpl[pos:]...)
+				r.do(Case{Doc: doc, What: "all"}, false)
+			}
+		}
+	}
+	evid.Label("every-byte-value-at-every-position")
 	r.done()
 }
 
